@@ -74,6 +74,10 @@ impl Prop for C02 {
         ),
       },
       Leg {
+        name: "stacks of 2-3 ReplaceSources with insertions at the end of the innermost one",
+        source: Cases::Generated(Box::new(|| crate::gen::replace_stack(GenCfg { max_tokens: 5, ..GenCfg::positional() }).prop_map(|spec| TreeCase { spec }).boxed()), 150_000, 2_000_000),
+      },
+      Leg {
         name: "replacements cutting the multi-piece chunks of a warm CachedSource",
         source: Cases::Generated(Box::new(spanning_strategy), 200_000, 2_500_000),
       },
